@@ -290,11 +290,16 @@ func runC15(s c15Scen, c *ev.Case) *ev.Violation {
 		}
 	}
 	// a subscriber that stops reading while data is queued for it, then a second connection with its client id
+	stalledDone := make(chan struct{})
+	if s.Stalled == 0 {
+		close(stalledDone)
+	}
 	if s.Stalled != 0 {
 		c.Label("stalled_reader_takeover")
 		wg.Add(1)
 		go func() {
 			defer wg.Done()
+			defer close(stalledDone)
 			conn, err := b.DialConn()
 			if err != nil {
 				return
@@ -336,13 +341,10 @@ func runC15(s c15Scen, c *ev.Case) *ev.Violation {
 			}
 			// from here on the client does not read any more
 			big := make([]byte, 48*1024)
-			for k := 0; k < 24 && !stopping.Load(); k++ {
+			for k := 0; k < 24; k++ {
 				b.Srv.Publisher().Publish(&gmqtt.Message{Topic: "flood", QoS: 0, Payload: big})
 			}
 			time.Sleep(30 * time.Millisecond)
-			if stopping.Load() {
-				return
-			}
 			// take-over: must be answered although the old connection's writer is stuck
 			c2, err := b.DialConn()
 			if err != nil {
@@ -404,6 +406,11 @@ func runC15(s c15Scen, c *ev.Case) *ev.Violation {
 	}
 	if s.StopAt < 100 {
 		c.Label("stop_mid_workload")
+	}
+	// the take-over of the stalled reader is part of the workload that must be answered: wait for its verdict
+	select {
+	case <-stalledDone:
+	case <-time.After(2*c15Wait + 5*time.Second):
 	}
 	stopping.Store(true)
 	stopErr := make(chan error, 1)
